@@ -11,6 +11,7 @@ from vlib import coqrun as _coqrun
 _coqrun.CHUNK = 24          # every case is a whole document: small case files, evaluated in parallel
 
 PROP = "C14"
+ANCHORS = [('canopen.objectdictionary.eds', 'export_eds'), ('canopen.objectdictionary.eds', 'export_dcf'), ('canopen.objectdictionary.eds', '_revert_variable'), ('canopen.objectdictionary.eds', 'import_eds'), ('canopen.objectdictionary.eds', 'build_variable'), ('canopen.objectdictionary', 'export_od'), ('canopen.objectdictionary', 'import_od')]
 MODEL_VO = ["theories/Model/Eds.vo"]
 COQ_IMPORTS = "From CV Require Import Model.Eds."
 COQ_RUN = "run_eds_full" if c08.FULL else "run_eds"
